@@ -29,6 +29,7 @@ type Scenario struct {
 
 	Resources []Resource `json:"resources,omitempty"`
 	Clients   []Client   `json:"clients,omitempty"`
+	Clients2  []Client   `json:"clients2,omitempty"` // second incarnation (after the first ended or was killed)
 
 	StoreFaults []StoreFault `json:"store_faults,omitempty"`
 	UpFaults    []UpFault    `json:"up_faults,omitempty"`
